@@ -14,6 +14,7 @@ import math
 import numpy as np
 
 from .. import circmon
+from ..gen import pick_seed
 from .common import drain_into, merge_stats, setup
 
 PROPERTY = "C18"
@@ -248,15 +249,15 @@ def run(ctx):
                         ctx.count("law_checks")
             elif op == "unitary":
                 ctx.bucket("random_unitary")
-                n = int(rng.integers(1, 13)); seed = int(rng.integers(1 << 30))
+                n = int(rng.integers(1, 13)); seed = pick_seed(rng)
                 case.update(n=n, seed=seed)
                 u1, u2 = lw.random_unitary(n, seed), lw.random_unitary(n, seed)
                 law(u1.shape == (n, n) and np.max(np.abs(u1.conj().T @ u1 - np.eye(n))) < 1e-10, "random_unitary not unitary", case, "random_unitary")
                 law(np.array_equal(u1, u2), "same seed, different unitary", case, "random_seed")
-                law(not np.array_equal(u1, lw.random_unitary(n, seed + 1)) or n == 0, "different seeds, same unitary", case, "random_seed")
+                law(not np.array_equal(u1, lw.random_unitary(n, (seed + 1) % 2 ** 32)) or n == 0, "different seeds, same unitary", case, "random_seed")
             elif op == "perm":
                 ctx.bucket("random_permutation")
-                n = int(rng.integers(1, 13)); seed = int(rng.integers(1 << 30))
+                n = int(rng.integers(1, 13)); seed = pick_seed(rng)
                 case.update(n=n, seed=seed)
                 p1, p2 = lw.random_permutation(n, seed), lw.random_permutation(n, seed)
                 ok = p1.shape == (n, n) and np.all((p1 == 0) | (p1 == 1)) and np.all(p1.sum(0) == 1) and np.all(p1.sum(1) == 1)
